@@ -43,6 +43,9 @@ CHECKS = {
    text="Every script of length <= 4 (5) over {stop, start, call} ending in a call, node initially up or down (down at creation included), 3 call kinds, blocking and non-blocking dial, with the back-off timers fired after every event or never; observation after each call happens at quiescence without firing a timer. Oracle: the call is delivered to the node's current incarnation, its reply arrives without any back-off timer firing once the handler has returned, every accepted stream carries general and per-node metadata and triggers the connect callback exactly once."),
  "C18": dict(cat="model_checking", ref="5.18", tech="stateless model checking with a state oracle read through an accessor (router tables) and the scheduler's thread table (per-call goroutines) at quiescent points",
    text="9 (13) call variants x 7 ways of ending x send buffer, every call repeated twice on the same manager, all schedules within the deviation bound; after each round, once every targeted node has answered or its connection has failed, the router count of every node must be zero (one per round only for a node that never answers), no per-call goroutine may be alive, and nothing grows between rounds."),
+ "C15": dict(cat="model_checking", ref="5.15 and 3.6", tech="stateless model checking under a -race build: schedules enumerated by the gomc scheduler, ThreadSanitizer as the per-execution oracle with scheduler hand-offs hidden and modelled happens-before edges announced",
+   text="Eight concurrent API workloads (all call types, cancellations, configuration creation vs pool readers, shared And/Except operands, crash+restart, Close during traffic, Close vs re-dial, concurrently streaming released handlers) are explored within the deviation bound with the harness built with -race; the scheduler's own hand-offs are wrapped in RaceDisable so they create no happens-before edges, and every modelled primitive announces exactly the edges the Go memory model gives it, so the detector reports the pairs of accesses the library leaves unordered on every explored schedule. A report counts when both stacks contain a library frame.",
+   note="Trusted base: gomc runtime incl. its race annotations (RaceAcquire/RaceRelease per primitive), ThreadSanitizer (bounded per-cell history), fakegrpc; module verif is compiled without race instrumentation."),
 }
 
 NOT_YET = {}
@@ -67,7 +70,7 @@ def main():
     na = [{"property_id": p, "reason": NOT_YET.get(p, "check not built yet in this revision of /verif (planned: see DESIGN.md section 5); not claimed until it runs")} for p in props if p not in CHECKS]
     m = {
         "version": 1,
-        "setup_cmd": ENV + "cd /verif && go build -o bin/verif ./cmd/verif && bin/verif build",
+        "setup_cmd": ENV + "cd /verif && go build -o bin/verif ./cmd/verif && bin/verif build --race",
         "hooks": {
             "guard": "verif-overlay",
             "enable": "no source hooks in /repo: bin/verif instruments the working tree's files into .cache/build/<hash>/ov and builds the harness with `go build -overlay` (sync, sync/atomic, channel operations, select, go statements, context, time and grpc client calls are re-routed to the gomc runtime)",
